@@ -4,14 +4,14 @@ from .. import env, histgen, session, wire
 from ..runner import Prop, Stage, Result
 from .c01 import CHATTER, CHATTER_TOKENS, TS_SHAPED
 
-PROFILE = dict(reuse=0.6, weights=dict(newer=4, delete=14, bind=12, message=50, server_event=8, sync=6, enum=10, title=10))
+PROFILE = dict(reuse=0.6, long_strings=True, weights=dict(newer=4, delete=14, bind=12, message=50, server_event=8, sync=6, enum=10, title=10))
 
 
 def gen_chatter(d):
     k = d.int(0, 9)
     if k == 0: return ''
     if k == 1: return d.choice([' ', '\t', '   ', ' \t '])
-    if k == 2: return 'x' * d.int(600, 3000) + ' end'
+    if k == 2: return 'x' * d.choice([600, 3000, 4095, 4096, 4097, 9000]) + ' end'
     toks = []
     for _ in range(d.int(1, 7)):
         toks.append(d.choice(CHATTER_TOKENS) if d.chance(0.5) else d.text(CHATTER, 0, 12))
@@ -150,11 +150,13 @@ class Streams(Stage):
     def gen(self, d, tier):
         dialect = d.choice(['new', 'old'])
         specs = histgen.history(d, nconn=d.int(1, 2), nmsg=d.int(1, 12), profile=PROFILE)
+        # current libwayland prints the event queue's name; with the project's conn_id patches both tags appear
+        queue = d.choice([None, None, 'Default Queue', 'Display Queue', 'q']) if dialect == 'new' else None
         lines = []
         for m in specs:
             while d.chance(0.4):
                 lines.append(['chat', gen_chatter(d)])
-            t = wire.render(m, dialect)
+            t = wire.render(m, dialect, queue=queue)
             if d.chance(0.1):
                 t = t + d.choice([' ', '\t', '  '])      # trailing blanks (surrounding whitespace aside)
             lines.append(['msg', t])
@@ -165,7 +167,7 @@ class Streams(Stage):
             final_newline = True
         text_len = sum(len(l[1]) + 1 for l in lines)
         offsets = None
-        if text_len > (400 if tier == 'quick' else 700):
+        if text_len > (400 if tier == 'quick' else 700):        # long streams: 40 drawn offsets
             offsets = sorted({d.int(0, text_len - 1) for _ in range(40)})
         return dict(dialect=dialect, specs=specs, lines=lines, final_newline=final_newline, offsets=offsets)
 
@@ -188,6 +190,8 @@ class Streams(Stage):
         if not case['final_newline']: res.label('no-final-newline')
         if any(l[1].strip() == '' for l in case['lines']): res.label('blank-line')
         if any(len(l[1]) > 500 for l in case['lines']): res.label('very-long-line')
+        if any(len(l[1]) > 4096 for l in case['lines']): res.label('line>4096')
+        if any(l[0] == 'msg' and '{' in l[1][:30] for l in case['lines']): res.label('queue-tag')
         res.label('dialect:' + case['dialect'])
         res.sample = dict(lines=[l[1][:100] for l in case['lines'][:10]], final_newline=case['final_newline'])
         return res
